@@ -16,10 +16,10 @@ Proof. induction k as [|k IH]; intros s; [reflexivity|]. cbn [repeat urun fold_l
 Lemma set_same s : set_state s (utext s) (ucur s) = s.
 Proof. destruct s; reflexivity. Qed.
 
-Lemma kstep_expand tbl s e : kbuf (kstep tbl s e) = urun (kbuf s) (expand tbl s e).
+Lemma expand_key_run tbl s h n t c :
+  urun (kbuf s) (expand_key tbl s h n t c) = set_state (kbody tbl s h n) t c.
 Proof.
-  destruct e as [h n t c|]; [|reflexivity].
-  cbn [kstep kbuf expand]. unfold kbody.
+  unfold expand_key, kbody.
   change (urun (kbuf s) (?o :: ?l)) with (urun (ustep (kbuf s) o) l).
   rewrite urun_app. cbn [ustep].
   set (s1 := if save_before tbl (kprev s) h then save_to_undo_stack (kbuf s) true else kbuf s).
@@ -28,6 +28,13 @@ Proof.
   rewrite E.
   destruct (r_act (lookup tbl h) =? 1); [rewrite urun_repeat; reflexivity|].
   destruct (r_act (lookup tbl h) =? 2); [rewrite urun_repeat; reflexivity|reflexivity].
+Qed.
+
+Lemma kstep_expand tbl s e : kbuf (kstep tbl s e) = urun (kbuf s) (expand tbl s e).
+Proof.
+  destruct e as [h n t c| |h n nav|]; cbn [kstep kbuf expand]; try reflexivity.
+  - symmetry. apply expand_key_run.
+  - symmetry. apply expand_key_run.
 Qed.
 
 Lemma krun_expand_all tbl evs : forall s,
@@ -53,12 +60,38 @@ Proof.
   destruct (r_act (lookup tbl h) =? 2); [apply wf_iter; [exact H1|exact I]|exact H1].
 Qed.
 
+Lemma index_some_lt {T} (l : list T) (i : Z) (x : T) : 0 <= i -> index l i = Some x -> i < len l.
+Proof.
+  intros Hi H. unfold index in H.
+  destruct (i <? 0) eqn:E; [apply Z.ltb_lt in E; lia|].
+  destruct ((i <? 0) || (len l <=? i)) eqn:E2; [discriminate|].
+  apply orb_false_iff in E2. destruct E2 as [_ E2]. apply Z.leb_gt in E2. exact E2.
+Qed.
+
+Lemma fix_vi_cursor_range nav b :
+  0 <= ucur b <= len (utext b) -> 0 <= fix_vi_cursor nav b <= len (utext b).
+Proof.
+  intros H. unfold fix_vi_cursor.
+  destruct (nav && _ && ((0 <? ucur b) && _)) eqn:E; [|exact H].
+  apply andb_true_iff in E. destruct E as [_ E]. apply andb_true_iff in E. destruct E as [E _].
+  apply Z.ltb_lt in E. lia.
+Qed.
+
+Lemma wf_set_cursor b c : wf b -> 0 <= c <= len (utext b) -> wf (set_state b (utext b) c).
+Proof.
+  intros (Hh & Hu & Hr & Hb) Hc. unfold wf, set_state, here; cbn [utext ucur ustack rstack ubad].
+  repeat split; try assumption; apply Hc.
+Qed.
+
 Lemma wf_kstep tbl s e : wf (kbuf s) -> kev_ok e -> wf (kbuf (kstep tbl s e)).
 Proof.
-  intros Hwf Hok. destruct e as [h n t c|]; cbn [kstep kbuf].
+  intros Hwf Hok. destruct e as [h n t c| |h n nav|]; cbn [kstep kbuf].
   - destruct (wf_kbody tbl s h n Hwf) as (Hh & Hu & Hr & Hb). destruct Hok as [Hc _].
     unfold wf, set_state, here; cbn [utext ucur ustack rstack ubad]. repeat split; try assumption; apply Hc.
   - apply wf_redo. exact Hwf.
+  - pose proof (wf_kbody tbl s h n Hwf) as Hb. apply wf_set_cursor; [exact Hb|].
+    apply fix_vi_cursor_range. destruct Hb as (Hh & _). exact Hh.
+  - exact Hwf.
 Qed.
 
 Lemma wf_krun tbl evs : forall s, wf (kbuf s) -> Forall kev_ok evs -> wf (kbuf (krun tbl s evs)).
@@ -68,14 +101,25 @@ Proof.
 Qed.
 
 (* the expansion of well-formed events is a list of well-formed operations *)
-Lemma expand_ok tbl s e : wf (kbuf s) -> kev_ok e -> Forall op_ok (expand tbl s e).
+Lemma expand_key_ok tbl s h n t c :
+  wf (kbuf s) -> 0 <= c <= len t -> Forall op_ok (expand_key tbl s h n t c).
 Proof.
-  intros Hwf Hok. destruct e as [h n t c|]; cbn [expand]; [|repeat constructor].
+  intros Hwf Hc. unfold expand_key.
   constructor; [destruct Hwf as (Hh & _); exact Hh|].
   apply Forall_app. split.
   - destruct (r_act (lookup tbl h) =? 1); [apply Forall_repeat; exact I|].
     destruct (r_act (lookup tbl h) =? 2); [apply Forall_repeat; exact I|constructor].
-  - constructor; [apply Hok|constructor].
+  - constructor; [exact Hc|constructor].
+Qed.
+
+Lemma expand_ok tbl s e : wf (kbuf s) -> kev_ok e -> Forall op_ok (expand tbl s e).
+Proof.
+  intros Hwf Hok. destruct e as [h n t c| |h n nav|]; cbn [expand].
+  - apply expand_key_ok; [exact Hwf|apply Hok].
+  - repeat constructor.
+  - apply expand_key_ok; [exact Hwf|].
+    apply fix_vi_cursor_range. destruct (wf_kbody tbl s h n Hwf) as (Hh & _). exact Hh.
+  - constructor.
 Qed.
 
 Lemma expand_all_ok tbl evs : forall s,
@@ -91,7 +135,22 @@ Qed.
 (* Grouping: a run of one if_no_repeat binding takes exactly one snapshot *)
 
 Definition is_key_of (h : Z) (e : kev) : Prop :=
-  match e with Key h' _ _ _ => h' = h | DRedo => False end.
+  match e with Key h' _ _ _ => h' = h | _ => False end.
+
+(* the events of a run as the terminal delivers them: invocations of the one
+   binding, with cursor position reports arriving in between *)
+Definition in_run_of (h : Z) (e : kev) : Prop :=
+  match e with Key h' _ _ _ => h' = h | Cpr => True | _ => False end.
+
+Lemma is_key_in_run h e : is_key_of h e -> in_run_of h e.
+Proof. destruct e; cbn; auto. Qed.
+
+Lemma Forall_is_key_in_run h evs : Forall (is_key_of h) evs -> Forall (in_run_of h) evs.
+Proof. intros H. eapply Forall_impl; [|exact H]. apply is_key_in_run. Qed.
+
+(* A cursor position report changes nothing the undo machinery looks at. *)
+Lemma cpr_is_invisible tbl s : kstep tbl s Cpr = s.
+Proof. destruct s; reflexivity. Qed.
 
 Lemma save_before_first tbl prev h :
   r_cls (lookup tbl h) = 2 -> prev <> Some h -> save_before tbl prev h = true.
@@ -112,21 +171,39 @@ Lemma kbody_plain tbl s h n :
   kbody tbl s h n = if save_before tbl (kprev s) h then save_to_undo_stack (kbuf s) true else kbuf s.
 Proof. intros Ha. unfold kbody. rewrite Ha. reflexivity. Qed.
 
-(* repeats keep both stacks *)
+(* repeats (and reports in between) keep both stacks *)
 Lemma group_repeats tbl h evs : forall s,
   r_cls (lookup tbl h) = 2 -> r_act (lookup tbl h) = 0 ->
-  kprev s = Some h -> Forall (is_key_of h) evs ->
+  kprev s = Some h -> Forall (in_run_of h) evs ->
   ustack (kbuf (krun tbl s evs)) = ustack (kbuf s) /\
   rstack (kbuf (krun tbl s evs)) = rstack (kbuf s) /\
   kprev (krun tbl s evs) = Some h.
 Proof.
   induction evs as [|e evs IH]; intros s Hc Ha Hp Hall; [repeat split; exact Hp|].
   inversion Hall as [|? ? He Hrest]; subst.
-  destruct e as [h' n t c|]; [|destruct He]. cbn [is_key_of] in He. subst h'.
   cbn [krun fold_left]. change (fold_left (kstep tbl) evs ?x) with (krun tbl x evs).
-  destruct (IH (kstep tbl s (Key h n t c)) Hc Ha eq_refl Hrest) as (I1 & I2 & I3).
+  destruct e as [h' n t c| |h' n nav|]; cbn [in_run_of] in He.
+  - subst h'.
+    destruct (IH (kstep tbl s (Key h n t c)) Hc Ha eq_refl Hrest) as (I1 & I2 & I3).
+    rewrite I1, I2, I3. cbn [kstep kbuf]. rewrite kbody_plain by exact Ha.
+    rewrite Hp, save_before_repeat by exact Hc. repeat split.
+  - contradiction.
+  - contradiction.
+  - rewrite cpr_is_invisible. apply IH; assumption.
+Qed.
+
+Theorem group_one_snapshot_cpr tbl h s n t c evs :
+  r_cls (lookup tbl h) = 2 -> r_act (lookup tbl h) = 0 ->
+  kprev s <> Some h -> Forall (in_run_of h) evs ->
+  let s' := krun tbl s (Key h n t c :: evs) in
+  ustack (kbuf s') = ustack (save_to_undo_stack (kbuf s) true) /\
+  rstack (kbuf s') = [] /\ kprev s' = Some h.
+Proof.
+  intros Hc Ha Hp Hrest. cbn zeta.
+  cbn [krun fold_left]. change (fold_left (kstep tbl) evs ?x) with (krun tbl x evs).
+  destruct (group_repeats tbl h evs (kstep tbl s (Key h n t c)) Hc Ha eq_refl Hrest) as (I1 & I2 & I3).
   rewrite I1, I2, I3. cbn [kstep kbuf]. rewrite kbody_plain by exact Ha.
-  rewrite Hp, save_before_repeat by exact Hc. repeat split.
+  rewrite save_before_first by assumption. repeat split.
 Qed.
 
 Theorem group_one_snapshot tbl h s e evs :
@@ -136,12 +213,40 @@ Theorem group_one_snapshot tbl h s e evs :
   ustack (kbuf s') = ustack (save_to_undo_stack (kbuf s) true) /\
   rstack (kbuf s') = [] /\ kprev s' = Some h.
 Proof.
-  intros Hc Ha Hp Hall. cbn zeta. inversion Hall as [|? ? He Hrest]; subst.
-  destruct e as [h' n t c|]; [|destruct He]. cbn [is_key_of] in He. subst h'.
-  cbn [krun fold_left]. change (fold_left (kstep tbl) evs ?x) with (krun tbl x evs).
-  destruct (group_repeats tbl h evs (kstep tbl s (Key h n t c)) Hc Ha eq_refl Hrest) as (I1 & I2 & I3).
-  rewrite I1, I2, I3. cbn [kstep kbuf]. rewrite kbody_plain by exact Ha.
-  rewrite save_before_first by assumption. repeat split.
+  intros Hc Ha Hp Hall. inversion Hall as [|? ? He Hrest]; subst.
+  destruct e as [h' n t c| |h' n nav|]; cbn [is_key_of] in He; try contradiction. subst h'.
+  apply group_one_snapshot_cpr; try assumption. apply Forall_is_key_in_run. exact Hrest.
+Qed.
+
+Lemma undo_after_one_snapshot b b' :
+  wf b -> ustack b' = ustack (save_to_undo_stack b true) -> rstack b' = [] ->
+  utext b' <> utext b ->
+  here (undo b') = here b /\ rstack (undo b') = [here b'].
+Proof.
+  intros Hwf Hu Hr Hne.
+  destruct (save_ustack_top b true) as [r Er]. rewrite Er in Hu.
+  unfold undo. rewrite Hu. cbn [undo_loop]. unfold here at 1. cbn [fst snd].
+  assert (Ef : str_eqb (utext b) (utext b') = false).
+  { apply c07_str_eqb_neq. congruence. }
+  unfold here in Er |- *.
+  rewrite Ef. destruct Hwf as (Hh & _). rewrite set_document_ok by exact Hh.
+  cbn [utext ucur rstack]. rewrite Hr. split; reflexivity.
+Qed.
+
+(* One undo after a run restores the pre-run text and cursor - also when
+   cursor position reports arrived between the keys of the run. *)
+Theorem group_one_undo_cpr tbl h s n t c evs :
+  r_cls (lookup tbl h) = 2 -> r_act (lookup tbl h) = 0 ->
+  kprev s <> Some h -> Forall (in_run_of h) evs ->
+  wf (kbuf s) ->
+  let s' := krun tbl s (Key h n t c :: evs) in
+  utext (kbuf s') <> utext (kbuf s) ->
+  here (undo (kbuf s')) = here (kbuf s) /\
+  rstack (undo (kbuf s')) = [here (kbuf s')].
+Proof.
+  intros Hc Ha Hp Hall Hwf. cbn zeta. intros Hne.
+  destruct (group_one_snapshot_cpr tbl h s n t c evs Hc Ha Hp Hall) as (Hu & Hr & _).
+  apply undo_after_one_snapshot; assumption.
 Qed.
 
 (* ... so ONE undo after the run restores the text and cursor from before the
@@ -157,14 +262,7 @@ Theorem group_one_undo tbl h s e evs :
 Proof.
   intros Hc Ha Hp Hall Hwf. cbn zeta. intros Hne.
   destruct (group_one_snapshot tbl h s e evs Hc Ha Hp Hall) as (Hu & Hr & _).
-  set (s' := krun tbl s (e :: evs)) in *.
-  destruct (save_ustack_top (kbuf s) true) as [r Er]. rewrite Er in Hu.
-  unfold undo. rewrite Hu. cbn [undo_loop]. unfold here at 1. cbn [fst snd].
-  assert (Ef : str_eqb (utext (kbuf s)) (utext (kbuf s')) = false).
-  { apply c07_str_eqb_neq. congruence. }
-  unfold here in Er |- *.
-  rewrite Ef. destruct Hwf as (Hh & _). rewrite set_document_ok by exact Hh.
-  cbn [utext ucur rstack]. rewrite Hr. split; reflexivity.
+  apply undo_after_one_snapshot; assumption.
 Qed.
 
 (* ------------------------------------------------------------------ *)
@@ -188,25 +286,35 @@ Proof.
   apply Z.eqb_eq in E. subst p. right. repeat split. exact E2.
 Qed.
 
+Lemma kbody_clears tbl s h n :
+  redo_inv tbl s -> r_act (lookup tbl h) = 0 -> r_cls (lookup tbl h) <> 0 ->
+  rstack (kbody tbl s h n) = [].
+Proof.
+  intros Hinv Ha Hc. rewrite kbody_plain by exact Ha.
+  destruct (save_before_cases tbl (kprev s) h Hc) as [E|(E2 & Ep & E)]; rewrite E.
+  - reflexivity.
+  - apply (Hinv h Ep E2 Ha).
+Qed.
+
 Lemma edit_step_clears tbl s h n t c :
   redo_inv tbl s -> r_act (lookup tbl h) = 0 -> r_cls (lookup tbl h) <> 0 ->
   rstack (kbuf (kstep tbl s (Key h n t c))) = [].
 Proof.
-  intros Hinv Ha Hc. cbn [kstep kbuf]. rewrite kbody_plain by exact Ha.
-  destruct (save_before_cases tbl (kprev s) h Hc) as [E|(E2 & Ep & E)]; rewrite E.
-  - reflexivity.
-  - cbn [set_state rstack]. apply (Hinv h Ep E2 Ha).
+  intros Hinv Ha Hc. cbn [kstep kbuf set_state rstack]. apply kbody_clears; assumption.
 Qed.
 
 Lemma redo_inv_step tbl s e : redo_inv tbl s -> redo_inv tbl (kstep tbl s e).
 Proof.
-  intros Hinv. destruct e as [h n t c|].
+  intros Hinv. destruct e as [h n t c| |h n nav|].
   - intros h' Hp Hc Ha. cbn [kstep kprev] in Hp. injection Hp as <-.
     apply edit_step_clears; [exact Hinv|exact Ha|]. rewrite Hc. discriminate.
   - intros h Hp Hc Ha. cbn [kstep kprev kbuf] in *.
     pose proof (Hinv h Hp Hc Ha) as Hr.
     destruct (redo_spec (kbuf s)) as [[_ Heq]|(t & pos & r & Hr' & _)]; [rewrite Heq; exact Hr|].
     rewrite Hr in Hr'. discriminate.
+  - intros h' Hp Hc Ha. cbn [kstep kprev] in Hp. injection Hp as <-.
+    cbn [kstep kbuf set_state rstack]. apply kbody_clears; [exact Hinv|exact Ha|]. rewrite Hc. discriminate.
+  - rewrite cpr_is_invisible. exact Hinv.
 Qed.
 
 Lemma redo_inv_run tbl evs : forall s, redo_inv tbl s -> redo_inv tbl (krun tbl s evs).
@@ -255,11 +363,21 @@ Proof.
   rewrite set_document_ustack. cbn [ustack]. apply save_nonempty.
 Qed.
 
+Lemma kbody_stack_inv tbl s h n :
+  tbl_sane tbl -> stack_inv tbl s -> r_cls (lookup tbl h) = 2 -> ustack (kbody tbl s h n) <> [].
+Proof.
+  intros Hsane Hinv Hc. pose proof (Hsane h Hc) as Ha. rewrite kbody_plain by exact Ha.
+  assert (Hc0 : r_cls (lookup tbl h) <> 0) by (rewrite Hc; discriminate).
+  destruct (save_before_cases tbl (kprev s) h Hc0) as [E|(E2 & Ep & E)]; rewrite E.
+  - apply save_nonempty.
+  - apply (Hinv h Ep E2).
+Qed.
+
 Lemma reach_step tbl s e :
   tbl_sane tbl -> wf (kbuf s) -> kev_ok e -> quiet tbl s e -> stack_inv tbl s ->
   bottom_text (kbuf (kstep tbl s e)) = bottom_text (kbuf s) /\ stack_inv tbl (kstep tbl s e).
 Proof.
-  intros Hsane Hwf Hok Hq Hinv. destruct e as [h n t c|].
+  intros Hsane Hwf Hok Hq Hinv. destruct e as [h n t c| |h n nav|].
   - cbn [kstep kbuf]. cbn [quiet] in Hq.
     destruct (Z.eq_dec (r_act (lookup tbl h)) 0) as [Ha|Ha].
     2:{ (* an undo/redo handler: the dispatch ends on the text the handler left *)
@@ -283,6 +401,12 @@ Proof.
       * intros h' _ _. cbn [kbuf set_state ustack]. exact Hne.
   - cbn [kstep kbuf]. split; [apply bottom_redo; exact Hwf|].
     intros h Hp Hc. cbn [kprev kbuf] in *. apply redo_keeps_nonempty. apply (Hinv h Hp Hc).
+  - (* an undo key, effect computed by the handler model: the text is the one undo() left *)
+    cbn [kstep kbuf]. split.
+    + rewrite <- (bottom_kbody tbl s h n Hwf). unfold bottom_text, set_state; reflexivity.
+    + intros h' Hp Hc. cbn [kprev] in Hp. injection Hp as <-.
+      cbn [kbuf set_state ustack]. apply kbody_stack_inv; assumption.
+  - rewrite cpr_is_invisible. split; [reflexivity|exact Hinv].
 Qed.
 
 Lemma reach_run tbl evs : forall s,
@@ -308,3 +432,66 @@ Proof.
   rewrite reach_run; [reflexivity|exact Hsane|exact Hwf0|exact Hok|exact Hq|].
   intros h Hp. discriminate.
 Qed.
+
+(* ------------------------------------------------------------------ *)
+(* Sessions made of modelled events only need no [all_quiet] hypothesis *)
+
+(* a generic (payload) key event is only used for plain handlers behind a
+   binding that snapshots; undo keys are [UndoKey], reports are [Cpr] *)
+Definition modelled (tbl : list row) (e : kev) : Prop :=
+  match e with
+  | Key h _ _ _ => r_act (lookup tbl h) = 0 /\ r_cls (lookup tbl h) <> 0
+  | _ => True
+  end.
+
+Lemma modelled_quiet tbl evs : forall s, Forall (modelled tbl) evs -> all_quiet tbl s evs.
+Proof.
+  induction evs as [|e evs IH]; intros s H; [exact I|].
+  inversion H as [|? ? He Hrest]; subst. cbn [all_quiet]. split; [|apply IH; exact Hrest].
+  destruct e as [h n t c| |h n nav|]; cbn [quiet]; try exact I.
+  destruct He as [Ha Hc]. intros [Hx|Hx]; contradiction.
+Qed.
+
+Theorem key_reaches_start_modelled tbl t0 c0 evs k :
+  tbl_sane tbl -> 0 <= c0 <= len t0 -> Forall kev_ok evs -> Forall (modelled tbl) evs ->
+  let s := kbuf (krun tbl (kfresh t0 c0) evs) in
+  (length (ustack s) <= k)%nat ->
+  utext (iter_op Undo k s) = t0.
+Proof.
+  intros Hsane Hc Hok Hm. apply key_reaches_start; try assumption. apply modelled_quiet. exact Hm.
+Qed.
+
+(* An undo key that never snapshots IS n calls of Buffer.undo followed by the
+   Vi cursor fix-up: same text, same stacks. *)
+Theorem undo_key_is_n_undos tbl s h n nav :
+  r_act (lookup tbl h) = 1 -> r_cls (lookup tbl h) = 0 ->
+  let b := iter_op Undo (Z.to_nat n) (kbuf s) in
+  kbuf (kstep tbl s (UndoKey h n nav)) = set_state b (utext b) (fix_vi_cursor nav b).
+Proof.
+  intros Ha Hc. cbn zeta. cbn [kstep kbuf]. unfold kbody, save_before. rewrite Ha, Hc. reflexivity.
+Qed.
+
+(* ------------------------------------------------------------------ *)
+(* One undo right after ANY snapshotted edit restores the state before it *)
+
+Theorem undo_restores_pre_command s t c :
+  wf s -> t <> utext s ->
+  here (undo (ustep s (Cmd true t c))) = here s /\
+  rstack (undo (ustep s (Cmd true t c))) = [(t, c)].
+Proof.
+  intros Hwf Hne. cbn [ustep].
+  apply (undo_after_one_snapshot s (set_state (save_to_undo_stack s true) t c)); try assumption; reflexivity.
+Qed.
+
+Theorem key_edit_undo tbl s h n t c :
+  r_act (lookup tbl h) = 0 -> save_before tbl (kprev s) h = true ->
+  wf (kbuf s) -> t <> utext (kbuf s) ->
+  here (undo (kbuf (kstep tbl s (Key h n t c)))) = here (kbuf s) /\
+  rstack (undo (kbuf (kstep tbl s (Key h n t c)))) = [(t, c)].
+Proof.
+  intros Ha Hsv Hwf Hne. cbn [kstep kbuf]. rewrite kbody_plain by exact Ha. rewrite Hsv.
+  apply (undo_after_one_snapshot (kbuf s) (set_state (save_to_undo_stack (kbuf s) true) t c)); try assumption; reflexivity.
+Qed.
+
+Lemma save_before_always tbl prev h : r_cls (lookup tbl h) = 1 -> save_before tbl prev h = true.
+Proof. intros Hc. unfold save_before. rewrite Hc. reflexivity. Qed.
